@@ -10,6 +10,56 @@ from .repo import AnalysisError
 from .vec import MASKED, Masked, Sc, Vec, Vec2
 
 
+class Dispatcher:
+    """functools.singledispatch: the implementation registered for the most specific class of the first argument, else the default"""
+    def __init__(self, default):
+        self.default = default
+        self.registry = []        # (class value, function), in registration order
+
+    def abs_getattr(self, interp, name, node):
+        from .models import PyCallable
+        if name == 'register':
+            def reg(it, a, k, n):
+                if len(a) == 1 and isinstance(a[0], FuncVal):
+                    fn = a[0]
+                    ann = fn.node.args.args[0].annotation if fn.node.args.args else None
+                    if ann is None:
+                        raise AbsRaise(ExcVal('TypeError', ('Invalid first argument to `register()`: use either `@register(some_class)` or a type annotation',)), n)
+                    cls = it.eval(ann, it.def_frame(fn))
+                    self.registry.append((cls, fn))
+                    return fn
+                if len(a) == 1:
+                    cls = a[0]
+                    return PyCallable(lambda it2, a2, k2, n2: (self.registry.append((cls, a2[0])), a2[0])[1], 'register(cls)')
+                if len(a) == 2:
+                    self.registry.append((a[0], a[1]))
+                    return a[1]
+                raise AnalysisError('singledispatch.register form not modelled', n)
+            return PyCallable(reg, 'register')
+        if name in ('__name__', '__wrapped__'):
+            return interp.getattr(self.default, name, node) if name == '__name__' else self.default
+        raise AnalysisError(f'singledispatch function attribute {name} not modelled', node)
+
+    def abs_call(self, interp, args, kwargs, node):
+        if not args:
+            raise AbsRaise(ExcVal('TypeError', ('singledispatch function requires at least 1 positional argument',)), node)
+        isinst = interp.models.ext_call['builtins.isinstance']
+        matches = [(c, f) for c, f in self.registry if isinst(interp, [args[0], c], {}, node) is True]
+        if len(matches) > 1:
+            # the most specific class wins: known chains only
+            order = ['builtins.bool', 'builtins.int', 'builtins.float', 'builtins.object']
+            def rank(c):
+                p = getattr(c, 'path', None)
+                return order.index(p) if p in order else None
+            ranked = [(rank(c), f) for c, f in matches]
+            if all(r is not None for r, _ in ranked):
+                matches = [min(zip([r for r, _ in ranked], range(len(ranked)), matches))[2]]
+            else:
+                raise AnalysisError('singledispatch with several matching registrations: specificity not modelled', node)
+        fn = matches[0][1] if matches else self.default
+        return interp.call(fn, list(args), dict(kwargs), node)
+
+
 def register(M):
     from .models import ContextMgr, FieldSpec, PyCallable, _where
     E = M.ext_call
@@ -45,6 +95,8 @@ def register(M):
             return len(v)
         if isinstance(v, Vec2):
             return len(v.rows)
+        if isinstance(v, ClassVal) and getattr(v, 'enum_members', None) is not None:
+            return len({id(m) for m in v.enum_members.values()})
         if isinstance(v, GenResult):
             raise AbsRaise(ExcVal('TypeError', ('object of type generator has no len()',)), node)
         if isinstance(v, Instance):
@@ -67,8 +119,11 @@ def register(M):
     @ext('builtins.sorted')
     def _sorted(interp, args, kw, node):
         items = interp.iterate(args[0], node)
+        keyed = None
         if kw.get('key') is not None:
-            raise AnalysisError('sorted(key=) not modelled', node)
+            # the key function is applied to every item once; the keys are ordered like items would be
+            keyed = items
+            items = [interp.call(kw['key'], [x], {}, node) for x in items]
         def sort_num(x):
             # NaN / infinities take part in Python's comparisons as floats (no comparison with NaN holds: timsort keeps what it cannot order)
             if isinstance(x, float) and (x != x or x in (float('inf'), float('-inf'))):
@@ -83,28 +138,36 @@ def register(M):
         except AnalysisError:
             ts = [getattr(x, 'sort_key', None) for x in items]
             if all(t is not None for t in ts):
-                order = sorted(range(len(items)), key=lambda i: ts[i])
-                res = [items[i] for i in order]
-                return list(reversed(res)) if kw.get('reverse') else res
+                order = sorted(range(len(items)), key=lambda i: ts[i], reverse=bool(kw.get('reverse')))
+                return [(keyed if keyed is not None else items)[i] for i in order]
             raise
-        order = sorted(range(len(items)), key=lambda i: vals[i])
-        res = [items[i] for i in order]
-        if kw.get('reverse'):
-            res.reverse()
-        return res
+        try:
+            order = sorted(range(len(items)), key=lambda i: vals[i], reverse=bool(kw.get('reverse')))
+        except TypeError:
+            raise AbsRaise(ExcVal('TypeError', ("'<' not supported between these items",)), node)
+        return [(keyed if keyed is not None else items)[i] for i in order]
 
     def _minmax(which):
         def f(interp, args, kw, node):
-            items = args if len(args) > 1 else interp.iterate(args[0], node)
-            if kw.get('key') is not None:
-                raise AnalysisError(f'{which}(key=) not modelled', node)
+            items = list(args) if len(args) > 1 else interp.iterate(args[0], node)
             if not items and 'default' in kw and len(args) == 1:
                 return kw['default']
             if not items:
                 raise AbsRaise(ExcVal('ValueError', (f'{which}() arg is an empty sequence',)), node)
-            vals = [conc_num(x, node) for x in items]
+            keys = items if kw.get('key') is None else [interp.call(kw['key'], [x], {}, node) for x in items]
+
+            def conc(x):
+                if isinstance(x, str):
+                    return x
+                if isinstance(x, (tuple, list)):
+                    return tuple(conc(y) for y in x)
+                return conc_num(x, node)
+            vals = [conc(x) for x in keys]
             pick = min if which == 'min' else max
-            i = vals.index(pick(vals))
+            try:
+                i = vals.index(pick(vals))        # the first of equal extremes, as Python does
+            except TypeError:
+                raise AbsRaise(ExcVal('TypeError', ("'<' not supported between these items",)), node)
             return items[i]
         return f
     E['builtins.min'] = _minmax('min')
@@ -300,7 +363,10 @@ def register(M):
 
     @ext('builtins.enumerate')
     def _enum(interp, args, kw, node):
-        return list(enumerate(interp.iterate(args[0], node), *(args[1:])))
+        start = args[1] if len(args) > 1 else kw.get('start', 0)
+        if not isinstance(start, int) or set(kw) - {'start'}:
+            raise AnalysisError('enumerate(start=<not a plain int>)', node)
+        return list(enumerate(interp.iterate(args[0], node), start))
 
     @ext('builtins.reversed')
     def _rev(interp, args, kw, node):
@@ -654,6 +720,22 @@ def register(M):
     @ext('dataclasses.field')
     def _field(interp, args, kw, node):
         return FieldSpec(default=kw.get('default'), factory=kw.get('default_factory'))
+
+    @ext('functools.cached_property')
+    def _cached_property(interp, args, kw, node):
+        raise AnalysisError('functools.cached_property not modelled', node)
+
+    @ext('functools.total_ordering')
+    def _total_ordering(interp, args, kw, node):
+        raise AnalysisError('functools.total_ordering not modelled', node)
+
+    @ext('functools.singledispatch')
+    def _singledispatch(interp, args, kw, node):
+        return Dispatcher(args[0])
+
+    @ext('enum.auto')
+    def _enum_auto(interp, args, kw, node):
+        return ('enum-auto',)
 
     @ext('dataclasses.replace')
     def _dc_replace(interp, args, kw, node):
